@@ -290,6 +290,39 @@ theorem nodup_bfs {univ srcs : List σ} (hsrc : ∀ s ∈ srcs, s ∈ univ)
           List.Nodup.length_le_of_subset (nodup_dedup _) (fun x hx => hsrc x (mem_dedup.mp hx))
         omega)).2.2.2
 
+/-- `bfsN` with any fuel above the size of a closed universe computes reachability. -/
+theorem mem_bfsN_iff {univ srcs : List σ} {fuel : Nat} (hf : univ.length < fuel)
+    (hsrc : ∀ s ∈ srcs, s ∈ univ)
+    (huniv : ∀ u ∈ univ, ∀ v ∈ succ u, v ∈ univ) {v : σ} :
+    v ∈ bfsN succ fuel srcs ↔ ∃ s ∈ srcs, Reach succ s v := by
+  unfold bfsN
+  simp only
+  constructor
+  · intro hv
+    refine bfsAux_sound succ srcs _ _ _ (fun x hx => hx) ?_ v hv
+    intro x hx
+    exact ⟨x, mem_dedup.mp hx, Reach.refl x⟩
+  · rintro ⟨s, hs, hr⟩
+    have h := bfsAux_closed succ univ huniv fuel (dedup srcs) (dedup srcs)
+      (nodup_dedup _) (fun x hx => hsrc x (mem_dedup.mp hx)) (fun x hx => hx)
+      (fun u hu hnu => absurd hu hnu) (by
+        have : (dedup srcs).length ≤ univ.length :=
+          List.Nodup.length_le_of_subset (nodup_dedup _) (fun x hx => hsrc x (mem_dedup.mp hx))
+        omega)
+    exact Reach.mem_of_closed h.2.1 hr (h.1 s (mem_dedup.mpr hs))
+
+theorem nodup_bfsN {univ srcs : List σ} {fuel : Nat} (hf : univ.length < fuel)
+    (hsrc : ∀ s ∈ srcs, s ∈ univ)
+    (huniv : ∀ u ∈ univ, ∀ v ∈ succ u, v ∈ univ) : (bfsN succ fuel srcs).Nodup := by
+  unfold bfsN
+  simp only
+  exact (bfsAux_closed succ univ huniv fuel (dedup srcs) (dedup srcs)
+      (nodup_dedup _) (fun x hx => hsrc x (mem_dedup.mp hx)) (fun x hx => hx)
+      (fun u hu hnu => absurd hu hnu) (by
+        have : (dedup srcs).length ≤ univ.length :=
+          List.Nodup.length_le_of_subset (nodup_dedup _) (fun x hx => hsrc x (mem_dedup.mp hx))
+        omega)).2.2.2
+
 end bfs
 
 end AV
